@@ -20,6 +20,7 @@ RULE = ('A generated ledger (G1, attribution on) followed by a state-aware progr
         'digest (class names, fields, token values; zero-width marks, block comments and trailing blanks of inline comments omitted) '
         'and the flat list of block-comment lines. Non-trivial = >= 1 structural operation whose slot has a present neighbour, or a '
         'multi-value list insertion.')
+RULE = RULE + ' Round 8: what every filtered / string / mapping view of every model shows is compared with the same view of the re-parsed print (views read before the edits in half of the programs).'
 ASSUMPTIONS = [
     'excluded by construction (the statement excludes them): raw_text, spacing and indent overrides, Transaction.raw_string0/1/2, '
     'ill-indented raw donors, and custom value lists in which a value beginning with a unary sign directly follows a number '
